@@ -19,7 +19,11 @@ uint64_t successes;
 uint64_t detach_done;        /* ghost: a fiber_detach call has completed successfully */
 uint64_t results[NF + 1];
 
+#ifdef K_MIGRATE
+void vm_init(void) { k_init(); k_init_migrate(); }
+#else
 void vm_init(void) { k_init(); }
+#endif
 
 void vm_thread_1(void) {
   t_returned = 1;
